@@ -113,6 +113,8 @@ def do_replay(prop, path):
     if p.get('history'):
         keep = {}
         U.native_check(u, p['history'][0], keep=keep)
+        if p.get('history_kind') == 'same-after-caller-modified-result':
+            U._scramble(keep.get('ret'))
         nat = U.native_check(u, p['history'][1], obj=keep.get('obj'))
     else:
         nat = U.native_check(u, p['inputs'])
@@ -139,6 +141,7 @@ def run_property(prop, tier, seed, only=None, dump=None):
     crashes = []
     known_hits = []
     lib_used = set()
+    inlined = set()
     bmc_info = []
     cross = {'functions': 0, 'inputs': 0, 'disagreements': 0}
     solver_s = 0.0
@@ -153,6 +156,9 @@ def run_property(prop, tier, seed, only=None, dump=None):
         if res.source:
             functions.append(res.source)
         lib_used.update(res.lib_used)
+        for nt in getattr(res, 'notes', []):
+            if isinstance(nt, str) and nt.startswith('callee without contract'):
+                inlined.add(nt)
         covers[u.short] = res.covers
         if res.canary:
             canaries.append(dict(unit=u.short, **res.canary))
@@ -166,7 +172,7 @@ def run_property(prop, tier, seed, only=None, dump=None):
         if not res.error and not res.obls:
             crashes.append('%s: zero obligations generated' % u.short)
         if not res.error and res.source and lk.get('sha256') == res.source['sha256'] and \
-                sorted(lk.get('obligations', [])) != sorted(o.name for o in res.obls):
+                lk.get('deps', {}) == res.deps and sorted(lk.get('obligations', [])) != sorted(o.name for o in res.obls):
             crashes.append('%s: obligation set differs from the lock although the source hash is unchanged' % u.short)
         if res.canary and res.canary['negated_goal_verdict'] == 'unsat' and not failed:
             crashes.append('%s: canary %s: the negated postcondition is provable (inconsistent hypotheses)'
@@ -189,14 +195,14 @@ def run_property(prop, tier, seed, only=None, dump=None):
                     # its contract on an object left over from an earlier call (state carried between calls)
                     path = write_replay(prop, u.short, dict(property=prop, unit=u.short, qualname=u.key,
                                                             obligation=rf['native']['failed'][0], inputs=rf['inputs'],
-                                                            history=rf['history'], native=rf['native'],
+                                                            history=rf['history'], history_kind=rf.get('history_kind'), native=rf['native'],
                                                             note='violated on the second call on the same object'))
                     violations.append((path, ''))
                 else:
                     cross['disagreements'] += 1
                     path = write_replay(prop, u.short, dict(property=prop, unit=u.short, qualname=u.key,
                                                             obligation=rf['native']['failed'][0], inputs=rf['inputs'],
-                                                            history=rf.get('history'),
+                                                            history=rf.get('history'), history_kind=rf.get('history_kind'),
                                                             native=rf['native'], solver='all obligations discharged',
                                                             note='contract violated at run time although the proof '
                                                                  'went through: engine or model unsound'))
@@ -232,18 +238,22 @@ def run_property(prop, tier, seed, only=None, dump=None):
             hit = None
         if hit is None and rf is not None and not match_known(known, u.short, rf['native']['failed'][0]):
             hit = {'obligation': (names or ['?'])[0], 'inputs': rf['inputs'], 'native': rf['native'], 'sizes': 'random',
-                   'history': rf.get('history')}
-        if hit is None and tier == 'thorough':
-            rf2, t2 = U.random_falsify(u, seed + 1, 3000)
+                   'history': rf.get('history'), 'history_kind': rf.get('history_kind')}
+        if hit is None and (tier == 'thorough' or res.error):
+            # nothing decided by proof for this function: search the run-time contract harder (histories included)
+            rf2, t2 = U.random_falsify(u, seed + 1, 3000 if tier == 'thorough' else 600)
+            cross['inputs'] += t2
             if rf2 is not None and not match_known(known, u.short, rf2['native']['failed'][0]):
-                hit = {'obligation': (names or ['?'])[0], 'inputs': rf2['inputs'], 'native': rf2['native'], 'sizes': 'random'}
+                hit = {'obligation': (names or ['?'])[0], 'inputs': rf2['inputs'], 'native': rf2['native'], 'sizes': 'random',
+                       'history': rf2.get('history'), 'history_kind': rf2.get('history_kind')}
         failing_desc = [o.as_dict() for o in failed]
         if hit is not None:
             path = write_replay(prop, u.short, dict(property=prop, unit=u.short, qualname=u.key,
                                                     obligation=hit['obligation'], failing_obligations=failing_desc,
                                                     engine_error=res.error, inputs=hit['inputs'],
                                                     native=hit['native'], sizes=hit.get('sizes'),
-                                                    history=hit.get('history'), source=res.source))
+                                                    history=hit.get('history'), history_kind=hit.get('history_kind'),
+                                                    source=res.source))
             violations.append((path, ''))
             continue
         if res.error:
@@ -346,6 +356,7 @@ def run_property(prop, tier, seed, only=None, dump=None):
             'functions': functions,
             'functions_under_contract': len(functions),
             'lemmas': [l.name for l in lemmas],
+            'callees_executed_in_place': sorted(inlined),
             'by_backend': by_backend, 'solver_s': round(solver_s, 3),
             'cover_checks': covers, 'canaries': canaries,
             'crosscheck': cross,
@@ -401,7 +412,7 @@ def make_lock():
         if res.error:
             print('lock: %s not buildable: %s' % (u.short, res.error))
             continue
-        lock[u.short] = {'sha256': res.source['sha256'], 'obligations': sorted(o.name for o in res.obls),
+        lock[u.short] = {'sha256': res.source['sha256'], 'deps': res.deps, 'obligations': sorted(o.name for o in res.obls),
                          'discharged': sorted(o.name for o in res.obls if o.verdict == 'unsat'),
                          'max_seconds': round(max([o.seconds for o in res.obls] or [0]), 3)}
         bad = [o.name for o in res.obls if o.verdict != 'unsat']
